@@ -1,5 +1,6 @@
 import Driver.Util
 import NutsModel.C10.DidStore
+import NutsModel.C10.Shelves
 import NutsModel.Facts.C10
 open Lean Nuts.Drv Nuts.C10 Nuts
 
@@ -81,7 +82,20 @@ def probeMeta (mine : List Event) (p : PSpec) : ResolveMeta :=
     sourceTx := if p.s == -2 then some 0 else (pick p.s).map (·.ref)
     time := if p.t ≥ 0 then some p.t.toNat else none }
 
-def observe (s : Store) (evs : List Event) (times : List Nat) (probes : List PSpec) (lite : Bool) : String := Id.run do
+/-- the whole model state the driver carries: the chain-level store and, per DID, the literal shelves -/
+structure Both where
+  s : Store := {}
+  sh : List (String × Shelves) := []
+
+/-- a Resolve probe is answered by BOTH layers of the model (theorem `shelf_resolve_eq_resolve` says they agree);
+    a disagreement is printed, so the correspondence also ties the shelf-level model to the implementation -/
+def resolve2 (known : List String) (b : Both) (d : String) (rm : Option ResolveMeta) : String :=
+  let a := showResolve known (resolve b.s d rm)
+  let c := showResolve known (sResolve ((alGet b.sh d).getD {}) rm)
+  if a == c then a else a ++ " SHELF-MODEL-ANSWERS:" ++ c
+
+def observe (b : Both) (evs : List Event) (times : List Nat) (probes : List PSpec) (lite : Bool) : String := Id.run do
+  let s := b.s
   let known := evs.map (·.payloadHash)
   let dids := (evs.map (·.doc.id)).eraseDups.toArray.qsort (· < ·) |>.toList
   let it := iterate s
@@ -90,9 +104,9 @@ def observe (s : Store) (evs : List Event) (times : List Nat) (probes : List PSp
   p := p.lit s!"cc={s.conflictedCount} dc={s.documentCount} nconf={s.cache.length} niter={it.length} nactive={act.length} iter=[{String.intercalate "," (it.map (·.1.id))}] unknown={showResolve known (resolve s "did:nuts:occursnowhere" (some { allowDeactivated := true }))}/{showHistory known (historySince (s.get "did:nuts:occursnowhere") 0)}"
   for d in dids do
     p := p.lit ("DID " ++ d)
-    p := p.probe "nil:" (showResolve known (resolve s d none))
-    p := p.probe "ad:" (showResolve known (resolve s d (some { allowDeactivated := true })))
-    p := p.probe "nad:" (showResolve known (resolve s d (some {})))
+    p := p.probe "nil:" (resolve2 known b d none)
+    p := p.probe "ad:" (resolve2 known b d (some { allowDeactivated := true }))
+    p := p.probe "nad:" (resolve2 known b d (some {}))
     let confS := match conflictedOf s d with | some (doc, m) => showDocMeta known doc m | none => "-"
     let iterS := match it.find? (fun q => q.1.id == d) with | some (doc, m) => showDocMeta known doc m | none => "-"
     let actS := match act.find? (fun q => q.id == d) with | some doc => doc.render | none => "-"
@@ -100,17 +114,17 @@ def observe (s : Store) (evs : List Event) (times : List Nat) (probes : List PSp
       let mine := evs.filter (fun e => e.doc.id == d)
       let mut ti := 0
       for t in times do
-        p := p.probe s!"t{ti}:" (showResolve known (resolve s d (some { time := some t })))
-        p := p.probe s!"ta{ti}:" (showResolve known (resolve s d (some { time := some t, allowDeactivated := true })))
+        p := p.probe s!"t{ti}:" (resolve2 known b d (some { time := some t }))
+        p := p.probe s!"ta{ti}:" (resolve2 known b d (some { time := some t, allowDeactivated := true }))
         ti := ti + 1
       let mut i := 0
       for e in evs do
-        p := p.probe s!"s{i}:" (showResolve known (resolve s d (some { sourceTx := some e.ref, allowDeactivated := true })))
-        p := p.probe s!"h{i}:" (showResolve known (resolve s d (some { hash := some e.payloadHash, allowDeactivated := true })))
+        p := p.probe s!"s{i}:" (resolve2 known b d (some { sourceTx := some e.ref, allowDeactivated := true }))
+        p := p.probe s!"h{i}:" (resolve2 known b d (some { hash := some e.payloadHash, allowDeactivated := true }))
         i := i + 1
       let mut k := 0
       for ps in probes do
-        p := p.probe s!"p{k}:" (showResolve known (resolve s d (some (probeMeta mine ps))))
+        p := p.probe s!"p{k}:" (resolve2 known b d (some (probeMeta mine ps)))
         k := k + 1
       p := p.probe "conf:" confS
       p := p.probe "iter:" iterS
@@ -127,16 +141,19 @@ def observe (s : Store) (evs : List Event) (times : List Nat) (probes : List PSp
 /-- arrival sequence with the op's failure codes: an Add whose first or second write transaction fails (1, 2, 3)
     or one of whose shelf operations fails (100+k) leaves the modelled state unchanged (the txRef / document shelves are content addressed and only ever read
     for refs of listed events); 4 = restart (cache reload) before a plain Add -/
-def runSeq (s : Store) : List (Event × Nat) → Res Store
-  | [] => .ok s
+def runSeq (b : Both) : List (Event × Nat) → Res Both
+  | [] => .ok b
   | (e, code) :: rest =>
-    if code = 1 ∨ code = 2 ∨ code = 3 ∨ code > 100 then runSeq s rest
+    if code = 1 ∨ code = 2 ∨ code = 3 ∨ code > 100 then runSeq b rest
     else
-      let s0 := if code = 4 then reload s else s
-      match add cfg s0 e with
-      | .ok s' => runSeq s' rest
-      | .err x => .err x
-      | .panic x => .panic x
+      let s0 := if code = 4 then reload b.s else b.s
+      match add cfg s0 e, sAdd cfg ((alGet b.sh e.doc.id).getD {}) e with
+      | .ok s', .ok none => runSeq { s := s', sh := b.sh } rest
+      | .ok s', .ok (some st') => runSeq { s := s', sh := alPut b.sh e.doc.id st' } rest
+      | .ok _, .err x => .err ("shelf-model:" ++ x)
+      | .ok _, .panic x => .panic ("shelf-model:" ++ x)
+      | .err x, _ => .err x
+      | .panic x, _ => .panic x
 
 def step (st : St) (j : Json) : St × List String :=
   match jStr j "op" with
@@ -148,10 +165,10 @@ def step (st : St) (j : Json) : St × List String :=
     let probes := (jArr j "probes").map parseProbe
     let seq := (arrival.zipIdx).filterMap (fun (i, pos) => (evs[i]?).map (fun e => (e, fail.getD pos 0)))
     match runSeq {} seq with
-    | .ok s =>
-      let o := observe s evs.toList times probes false
+    | .ok b =>
+      let o := observe b evs.toList times probes false
       -- restart: the durable state survives, the conflicted cache is rebuilt from the shelves
-      ({ last := observe (reload s) evs.toList times probes true }, [o])
+      ({ last := observe { b with s := reload b.s } evs.toList times probes true }, [o])
     | .err e => ({ last := "err:" ++ e }, ["err:" ++ e])
     | .panic e => ({ last := "panic:" ++ e }, ["panic:" ++ e])
   | "again" => (st, [st.last])
